@@ -24,7 +24,7 @@ func witnessFlat() *Case {
 }
 
 func witnessNested() *Case {
-	// $v0 = [[1,2],[3]]; $v1 = $v0; $v1[0][0] = 9;   — still leaks (known)
+	// $v0 = [[1,2],[3]]; $v1 = $v0; $v1[0][0] = 9;   — leaked before the deep copy (C06-6): C06_shallow_nested_counterexample
 	return &Case{NV: 2, Shape: "nest2", Route: "assign", Mut: "nestedStoreIdx", Side: "copy", Ops: []Op{
 		{K: "setVar", X: 0, R: RLit(LArr(LArr(LInt(1), LInt(2)), LArr(LInt(3))))},
 		{K: "setVar", X: 1, R: RRd(V(0))},
@@ -131,7 +131,7 @@ func Run(c *vh.Ctx) {
 		return
 	}
 
-	c.Res.Rule = "triples: every (array shape x aliasing route x mutation x written side) of the catalogue (10 shapes: list, permuted list, empty, string-keyed, mixed, sparse, nested to depth 2 and 3, nested under string keys; 13 single-edge routes: assignment, by-value parameter with the write inside the callee, function return, getter, property read, property store, setter, element store, element append, array-literal item, element read, foreach value, clone; 22 composite routes (flat mutations): a call result — getter, element of a by-value copy — handed straight to a function / method / static method / constructor / closure / named parameter, an assignment, an element store / append, a property store / setter; 23 mutations: int/sparse/string/array store, append, unset, push/pop/shift/unshift/sort as method and as array_* function, and their nested forms one and two levels down); seeded programs of 4-14 statements over 4 variables, 2 object properties, with explicit references and handle copies; keyed-literal (ObjectValue) triples; composite-route cases: owner x producer expression x by-value sink x flat mutation x shape x scope, one script each; non-trivial = at least 3 statements; distinct = distinct statement list"
+	c.Res.Rule = "triples: every (array shape x aliasing route x mutation x written side) of the catalogue (10 shapes: list, permuted list, empty, string-keyed, mixed, sparse, nested to depth 2 and 3, nested under string keys; 13 single-edge routes: assignment, by-value parameter with the write inside the callee, function return, getter, property read, property store, setter, element store, element append, array-literal item, element read, foreach value, clone; 22 composite routes: a call result — getter, element of a by-value copy — handed straight to a function / method / static method / constructor / closure / named parameter, an assignment, an element store / append, a property store / setter; 23 mutations: int/sparse/string/array store, append, unset, push/pop/shift/unshift/sort as method and as array_* function, and their nested forms one and two levels down); seeded programs of 4-14 statements over 4 variables, 2 object properties, with explicit references and handle copies; keyed-literal (ObjectValue) triples; composite-route cases: owner x producer expression x by-value sink x flat mutation x shape x scope, one script each; non-trivial = at least 3 statements; distinct = distinct statement list"
 
 	if f := os.Getenv("C06_PRELUDE_OUT"); f != "" { // development: the prelude, to replay a case on the CLI
 		os.WriteFile(f, []byte("<?php\n"+classPrelude+xPrelude()), 0o644)
@@ -242,9 +242,10 @@ func Run(c *vh.Ctx) {
 			}
 		}
 	}
-	// ---- 3. seeded programs with writes into inner arrays: judged by the oracle when
-	//         the model predicts value semantics (model = spec), otherwise only the
-	//         correspondence is checked (the model predicts the leak exactly)
+	// ---- 3. seeded programs with writes into inner arrays (one or two levels down, missing
+	//         intermediate keys created on the way): correspondence and oracle, like stream 2.
+	//         C06_value_semantics says the model equals the reference semantics on every program;
+	//         the driver is asked for both and a difference is reported as a broken correspondence.
 	g.nested = true
 	for i := 0; i < c.N(8000, 120000); i++ {
 		if i%200 == 0 && tooManyCrashes() {
@@ -252,17 +253,21 @@ func Run(c *vh.Ctx) {
 		}
 		cs := &Case{NV: 4, Ops: g.program(c.Rand.Range(4, 12))}
 		agree, inFrag := r.modelAgreesWithSpec(cs)
+		if !agree && r.m != nil {
+			c.Hit("nested:model!=spec")
+			lf, _ := ModelLine("fixed", cs.NV, cs.Ops)
+			ls, _ := ModelLine("spec", cs.NV, cs.Ops)
+			a, _ := r.m.Ask(lf)
+			b, _ := r.m.Ask(ls)
+			c.Mismatch(cs, a, b, "Model.Heap (Cfg.fixed) vs Spec.Val: contradicts C06_value_semantics (driver / theorem out of step)")
+			continue
+		}
 		if !inFrag {
 			c.Hit("nested:outside-fragment")
 			continue
 		}
-		if agree {
-			c.Hit("nested:model=spec")
-			r.runCase(cs, true)
-		} else {
-			c.Hit("nested:model-predicts-leak")
-			r.runCase(cs, false)
-		}
+		c.Hit("nested:model=spec")
+		r.runCase(cs, true)
 	}
 }
 
